@@ -212,12 +212,17 @@ def build_calls(tmpdir):
     add("decimal_without_scale", lambda: {"schema": copy.deepcopy(S_DEC_NOSCALE), "value": {"amounts": [decimal.Decimal("12"), decimal.Decimal("-7")]}}, dec_noscale)
 
     def resolve_alias(fa, a, sh):
-        # a parsed reader schema the application keeps (bare-string aliases), used for resolution and then written with
+        # a parsed reader schema the application keeps (bare-string aliases): written with, used for resolution, written with again
         pr = sh.setdefault("PRA", fa.parse_schema(a["r"]))
+
+        def wr():
+            fo = io.BytesIO()
+            fa.writer(fo, pr, [{"id": 1, "pt": {"x": 2}}], sync_marker=b"0123456789abcdef")
+            return fo.getvalue()
+        before = wr()
         out = fa.schemaless_reader(io.BytesIO(_sl(fa, a["w"], copy.deepcopy(D_A1))), a["w"], pr)
-        fo = io.BytesIO()
-        fa.writer(fo, pr, [{"id": 1, "pt": {"x": 2}}], sync_marker=b"0123456789abcdef")
-        return {"read": out, "file": fo.getvalue()}
+        after = wr()
+        return {"read": out, "file": before, "__must__": before == after}
     add("resolve_with_kept_alias_reader", lambda: {"w": copy.deepcopy(S_A1), "r": copy.deepcopy(S_READER_ALIAS)}, resolve_alias)
     add("decimal_p5", lambda: {"schema": copy.deepcopy(S_DEC5), "value": decimal.Decimal("123.45")}, dec)
     add("decimal_p20", lambda: {"schema": copy.deepcopy(S_DEC20), "value": decimal.Decimal("123456789012345678.91")}, dec)
